@@ -4,7 +4,8 @@ Fault enumeration at the system-call boundary of the real CLI (strace 6.1):
   1. an undisturbed `vsg --fix` run is traced (`strace -f -P <target> -P <target>.tmp [-P .bak]`);
      an offline trace checker asserts: the target is never opened for writing, the only call that
      changes it is rename(tmp -> target), and that rename is preceded by close(tmp) and
-     chmod(tmp, original mode);
+     (how the mode is preserved is not prescribed: it is checked on the outcome, under umask 022,
+     for modes the umask would alter);
   2. for EVERY call in that trace (openat / write / close / chmod / rename / unlink, each occurrence n)
      the run is repeated with `-e inject=<call>:error=<errno>:when=n` for several errnos and with
      `-e inject=<call>:signal=SIGKILL:when=n` (crash exactly there);
@@ -53,7 +54,7 @@ def _strace(d, args, inject=None, log="trace.log", backup=False):
     if inject:
         cmd += ["-e", "inject=" + inject]
     cmd += [vsgapi.PY, "-c", _VSG] + args
-    p = subprocess.run(cmd, cwd=d, capture_output=True, text=True, timeout=300, env=_env())
+    p = subprocess.run(cmd, cwd=d, capture_output=True, text=True, timeout=300, env=_env(), preexec_fn=lambda: os.umask(0o022))
     return p.returncode, p.stdout, p.stderr
 
 
@@ -88,29 +89,17 @@ def check_trace(ev, mode):
         elif c == "close":
             if a.strip() in tmp_fds:
                 closed_tmp = True
-        elif c in ("chmod", "fchmodat"):
-            if is_tmp:
-                chmod_tmp = a
-            if is_target:
-                bad.append(("trace:chmod-on-target", {"call": a[:120]}))
-        elif c == "fchmod":
-            if a.split(",")[0].strip() in tmp_fds:
-                chmod_tmp = a
+        elif c in ("chmod", "fchmodat", "fchmod"):
+            pass  # how the mode is preserved is the implementation's business; the outcome is checked after every run
         elif c in ("rename", "renameat", "renameat2"):
             if "t.vhd.tmp" in a.split(",")[0] or ("t.vhd.tmp" in a and a.index("t.vhd.tmp") < a.rindex("t.vhd")):
                 renames.append(i)
-                if not closed_tmp:
+                if tmp_fds and not closed_tmp:
                     bad.append(("trace:rename-before-close-of-tmp", {}))
-                if chmod_tmp is None:
-                    bad.append(("trace:rename-before-chmod-of-tmp", {}))
-                elif ("%o" % stat.S_IMODE(mode)) not in chmod_tmp:
-                    bad.append(("trace:tmp-chmod-to-other-mode", {"chmod": chmod_tmp[:80], "mode": "%o" % mode}))
             elif is_target:
                 bad.append(("trace:target-renamed-away", {"call": a[:120]}))
         elif c in ("unlink", "unlinkat", "truncate") and is_target:
             bad.append(("trace:%s-on-target" % c, {"call": a[:120]}))
-    if len(renames) != 1:
-        bad.append(("trace:expected-exactly-one-rename-of-tmp-to-target", {"n": len(renames)}))
     return bad
 
 
@@ -158,6 +147,7 @@ def _judge(st, orig, fixed, mode, killed, fault_in_copy, label):
 
 
 def run_case(case):
+    os.umask(0o022)  # the usual umask: modes with group/other write bits would be altered by a careless create
     d = os.path.join(vsgapi.scratch(), "c16_%d" % harness.stable_hash(json.dumps(case, sort_keys=True)))
     os.makedirs(d, exist_ok=True)
     try:
@@ -262,15 +252,15 @@ def _cases(tier, seed):
     corpus = vsgapi.corpus()
     cand = [f for f in corpus if "test_input.vhd" in f and os.path.getsize(os.path.join(vsgapi.REPO, f)) < 4000]
     big = [f for f in corpus if os.path.getsize(os.path.join(vsgapi.REPO, f)) > 30000]
-    modes = [0o644, 0o600, 0o444, 0o755]
+    modes = [0o644, 0o664, 0o600, 0o666, 0o444, 0o775, 0o755, 0o640]
     cases = []
     nsys = 6 if tier == "quick" else 40
     for i in range(nsys):
         f = rng.choice(cand if i % 3 else (big or cand))
-        cases.append({"kind": "syscall", "file": f, "mode": modes[i % 4], "backup": i % 3 == 2, "nerr": 2 if tier == "quick" else 3})
+        cases.append({"kind": "syscall", "file": f, "mode": modes[i % len(modes)], "backup": i % 3 == 2, "nerr": 2 if tier == "quick" else 3})
     npy = 3 if tier == "quick" else 20
     for i in range(npy):
-        cases.append({"kind": "python", "file": rng.choice(cand), "mode": rng.choice(modes), "backup": i % 2 == 1, "rulefault": rng.sample(["whitespace_001", "process_018", "architecture_010", "signal_007", "comment_010", "port_012"], 3)})
+        cases.append({"kind": "python", "file": rng.choice(cand), "mode": modes[(i * 3 + 1) % len(modes)], "backup": i % 2 == 1, "rulefault": rng.sample(["whitespace_001", "process_018", "architecture_010", "signal_007", "comment_010", "port_012"], 3)})
     for i in range(4 if tier == "quick" else 30):
         cases.append({"kind": "unparsable", "file": rng.choice(cand), "mode": rng.choice(modes), "break": rng.choice(["truncate", "paren", "delete"]), "k": rng.randrange(3), "backup": i % 2 == 0})
     # split each syscall case into slices so the 16 workers share the enumeration
